@@ -237,6 +237,10 @@ func judgeC06Rerun(rc *RunCtx, r1, r2 *CheckRun, F1 *Invocation, viaFlag bool) {
 		}
 	}
 	if first == nil {
+		for _, inv := range r2.W.Invs {
+			rc.Tracef("  r2 inv %d %s custom=%v end=%s signals=%d draws={%s}", inv.Idx, inv.Phase, inv.Custom, inv.EndState, len(inv.Signals), oneLine(drawsStr(inv.Draws), 200))
+		}
+		rc.Tracef("  r2 verdict: %s", oneLine(r2.VerdictText, 600))
 		rc.V(viol(rule, "no-failing-replay", "the next Check failed without a failing fail-file replay"))
 		return
 	}
